@@ -30,14 +30,26 @@ type scriptConn struct {
 	reads      int
 	wrote      bytes.Buffer
 	yield      bool // let other goroutines run after every Write (concurrent senders)
+	failAt     int  // >= 0: the Write call that crosses this offset writes up to it and fails (once)
+	failed     bool
 }
+
+// writeTimeout is what a net.Conn returns when the write deadline passes
+// after part of the buffer has gone out.
+type writeTimeout struct{}
+
+func (writeTimeout) Error() string   { return "write tcp 127.0.0.1:1->127.0.0.1:2: i/o timeout" }
+func (writeTimeout) Timeout() bool   { return true }
+func (writeTimeout) Temporary() bool { return true }
+
+var _ net.Error = writeTimeout{}
 
 func newScriptConn(segs [][]byte, eof bool) *scriptConn {
 	cp := make([][]byte, len(segs))
 	for i, s := range segs {
 		cp[i] = append([]byte{}, s...)
 	}
-	return &scriptConn{segs: cp, eof: eof, blocked: make(chan struct{}), done: make(chan struct{})}
+	return &scriptConn{segs: cp, eof: eof, blocked: make(chan struct{}), done: make(chan struct{}), failAt: -1}
 }
 
 func (c *scriptConn) Read(p []byte) (int, error) {
@@ -73,6 +85,13 @@ func (c *scriptConn) Write(p []byte) (int, error) {
 	defer c.mu.Unlock()
 	if c.closed {
 		return 0, errors.New("write: use of closed network connection")
+	}
+	if at := c.wrote.Len(); c.failAt >= 0 && !c.failed && c.failAt >= at && c.failAt < at+len(p) {
+		// the injected failure: part of p goes out, then the deadline passes.
+		// The next Write works again (Send sets a fresh deadline every time).
+		c.failed = true
+		c.wrote.Write(p[:c.failAt-at])
+		return c.failAt - at, writeTimeout{}
 	}
 	c.wrote.Write(p)
 	if c.yield {
